@@ -67,3 +67,35 @@ Theorem C01_block : forall deflate inflate typ hdr size interval hs recs w file_
     (typ =? typ_log = false -> (length raw <= size)%nat).
 Proof. exact block_roundtrip. Qed.
 Print Assumptions C01_block.
+
+(* ---- the table level: the whole of C01 ---- *)
+From RT Require Import Model.Writer Model.Reader Proofs.TableProofs.
+
+(* For any sorted set of ref records and reflog records in the writer's
+   documented domain, under any write configuration (block size, restart
+   interval, padded or unaligned, with or without the object index, both hash
+   sizes, exact or normalised messages) and any limits: if the writer accepts
+   them, opening the produced bytes and scanning returns exactly those refs and
+   exactly those log entries (absent hashes as zeros, messages normalised), in
+   key order -- whatever sections, index levels and object index the table has.
+   zlib enters through three hypotheses about the oracle pair (deflate, inflate):
+   round trip with exact stream length, a truncated stream reports truncation,
+   deflate does not blow a block up beyond 2^30 bytes. *)
+Theorem C01_roundtrip : forall deflate inflate,
+  zlib_ok deflate inflate ->
+  (forall x n, (n < length (deflate x))%nat -> inflate (firstn n (deflate x)) = ITrunc) ->
+  (forall x, N.of_nat (length x) < 16777216 -> N.of_nat (length (deflate x)) < 1073741824) ->
+  forall cfg min max refs logs data,
+  cfg_ok cfg -> max < two64 -> min <= max -> refs_ok cfg min max refs -> logs_ok cfg logs ->
+  N.of_nat (length data) < two64 ->
+  write_table deflate cfg min max refs logs = Ok (false, data) ->
+  exists r, rd_open data = Ok r /\ rd_min r = min /\ rd_max r = max /\ rd_sha256 r = c_sha256 cfg /\
+    scan_refs inflate r = Ok (map RecRef refs) /\
+    exists logs', read_logs cfg logs = Some logs' /\ scan_logs inflate r = Ok (map RecLog logs').
+Proof. exact table_roundtrip. Qed.
+Print Assumptions C01_roundtrip.
+
+(* the hypotheses are jointly satisfiable: a concrete codec (a "stored" stream
+   format defined in Gallina) meets all three, so the theorem is not vacuous *)
+Definition C01_nonvacuous := table_roundtrip_stored.
+Print Assumptions C01_nonvacuous.
